@@ -45,17 +45,20 @@ def run_extracted(progs, workdir, shard=0):
     d = os.path.join(workdir, 'ml%d' % shard)
     os.makedirs(d, exist_ok=True)
     with open(os.path.join(d, 'cases.ml'), 'w') as f:
-        f.write('open Model\nopen Helpers\nlet progs = [\n')
-        for p in progs:
-            f.write('  ' + to_ocaml(p) + ';\n')
-        f.write(']\n')
+        f.write('open Model\nopen Helpers\n')
+        for i, p in enumerate(progs):
+            f.write('let p%d = %s\n' % (i, to_ocaml(p)))
+        f.write('let progs = [' + '; '.join('p%d' % i for i in range(len(progs))) + ']\n')
     shutil.copy(os.path.join(GEN, 'main.ml'), d)
     cmd = ['ocamlfind', 'ocamlopt', '-w', '-a', '-I', GEN, os.path.join(GEN, 'model.cmx'),
            os.path.join(GEN, 'helpers.cmx'), 'cases.ml', 'main.ml', '-o', 'run']
-    r = subprocess.run(cmd, cwd=d, capture_output=True, text=True, timeout=600)
+    # large literals overflow the compiler's default 8 MB stack
+    r = subprocess.run(['bash', '-c', 'ulimit -s unlimited 2>/dev/null || ulimit -s 1000000; exec "$@"', 'sh'] + cmd,
+                       cwd=d, capture_output=True, text=True, timeout=600)
     if r.returncode != 0:
         raise RuntimeError('ocaml build failed: ' + r.stderr[:2000])
-    r = subprocess.run(['./run'], cwd=d, capture_output=True, text=True, timeout=600)
+    r = subprocess.run(['bash', '-c', 'ulimit -s unlimited 2>/dev/null; exec ./run'], cwd=d, capture_output=True,
+                       text=True, timeout=600)
     if r.returncode != 0:
         raise RuntimeError('extracted model failed: ' + r.stderr[:2000])
     return parse_reports(r.stdout)
